@@ -69,6 +69,14 @@ PROPS = {
         "trusted": ["each rule enters the model as the set of nodes it matches individually"],
         "assumptions": ["well-formed suppression comments on single-line statements, as the property says"],
     },
+    "C16": {
+        "level_text": "Coq theorems (axiom-free) over Gallina models of the JSON printer automaton (before_print / process with its separator state / after_print / print_docs: for every sequence of buffers, empty ones included, the output is the JSON array — or one document per line — of exactly the documents received), of Node::display_context (`lines` is the whole lines covering the match plus context, clipped at the text's ends; the leading text holds exactly the reported number of lines) and of get_char_column / position (line = newlines before the offset, column = characters since the line start). Tied on every run: the raw documents of the CLI's output through the model's automaton must reproduce the CLI's bytes, display_context of every match through the library vs the model; direct oracle: every field of every JSON record (text, byteOffset, start/end, lines, charCount, every meta-variable and label, replacementOffsets) and every path:line:text entry of the plain report recomputed from the file bytes on CRLF / multi-byte / long-line / no-trailing-newline files, all three JSON styles and -A/-B/-C",
+        "level_note": "trusted: Coq kernel, extraction + driver, Rust harness; serde_json's serialisation of one document, clap and the terminal glue are not modelled (tied through the CLI)",
+        "streams": ["c16"],
+        "cli": True,
+        "trusted": ["documents are opaque non-empty byte strings for the framing theorem"],
+        "assumptions": ["file contents are valid UTF-8 (other files are skipped by the CLI: C17)"],
+    },
     "C19": {
         "level_text": "Coq theorems (axiom-free) over a Gallina model of the tree-sitter cursor iterators and the Node navigation API: Pre/Post/Level unfold to exactly the recursive pre-/post-/level-order list of the subtree (each node once, in order, nothing outside; any number of next() calls yields a prefix), ancestors is the chain of parents, next_all/prev_all are the iterated siblings for every node including the root, child ranges nest, and get_char_column / position equal the newline and character counts of the prefix. Tied on every run: the public API on every node of real and token-mutated (error-containing, CRLF, lone-CR, multi-byte, empty) trees of all 23 languages vs the extracted model on the dumped tree; direct oracle: the API against recursive baselines computed from children() and against the bytes",
         "level_note": "trusted: Coq kernel, extraction + driver, Rust harness; that tree-sitter's child ranges are ordered/nested and its rows equal newline counts is validated per dumped tree (wfb, direct oracle), not proved; the sibling clause excludes parents with zero-width children as the property does",
